@@ -366,6 +366,26 @@ func parseRule(node *yaml.Node, offsetLine, offsetColumn int, contentLines []str
 		}
 	}
 
+	// `expr: null` or `alert: ~` is a YAML null, not a string: the field is unset and Prometheus will reject the rule.
+	for _, entry := range []struct {
+		part *yaml.Node
+		key  string
+	}{
+		{key: recordKey, part: recordNode},
+		{key: alertKey, part: alertNode},
+		{key: exprKey, part: exprNode},
+	} {
+		if entry.part != nil && entry.part.ShortTag() == nullTag && entry.part.Value != "" {
+			return Rule{
+				Lines: lines,
+				Error: ParseError{
+					Line: entry.part.Line + offsetLine,
+					Err:  fmt.Errorf("%s value cannot be empty", entry.key),
+				},
+			}, false
+		}
+	}
+
 	for _, entry := range []struct {
 		part *yaml.Node
 		key  string
